@@ -63,7 +63,10 @@ OneOfs == { [k |-> "oneOf", nullable |-> FALSE, of |-> << Ref("VarDog"), Ref("Va
           \cup { [k |-> "oneOf", nullable |-> FALSE, of |-> << Ref("VarDog"), Ref("VarCat"), Ref("PoolB") >>, discProp |-> ""] }
 Nested == { Obj(<< P("inner", x, r), P("list", Arr(x), FALSE) >>, [addlK |-> ""]) : x \in { Ref("PoolA"), Ref("PoolC"), MemberB }, r \in BOOLEAN }
           \cup { Arr(Ref("PoolA")), Arr(MemberB), Arr(Arr(Sc("int64", FALSE))) }
-Universe == Scalars \cup { Arr(s) : s \in Scalars } \cup Objects \cup AllOfs \cup OneOfs \cup Nested
+\* properties that are a $ref to a nullable component (PoolNullStr : nullable string, PoolNullObj : nullable object)
+NullRefs == { Obj(<< P("owner", x, r), P("id", Sc("int64", FALSE), TRUE) >>, [addlK |-> ""]) : x \in { Ref("PoolNullStr"), Ref("PoolNullObj") }, r \in BOOLEAN }
+            \cup { Arr(Ref("PoolNullStr")), Arr(Ref("PoolNullObj")) }
+Universe == NullRefs \cup Scalars \cup { Arr(s) : s \in Scalars } \cup Objects \cup AllOfs \cup OneOfs \cup Nested
 
 EmitSchema(s) == st = "pick" /\ Emit /\ PrintT(ToJson([schema |-> s])) /\ UNCHANGED vars
 
